@@ -143,6 +143,12 @@ def config_text(case):
                   "  hillWeight %r" % b["W"], "  gaussianSigmas " + " ".join("%r" % t[1] for t in b["terms"]),
                   "  newHillFrequency 1000", "  useGrids off", "}"]
             continue
+        if b["type"] == "hist":
+            L += ["histogramRestraint {", "  name b%d" % j, "  colvars " + " ".join("v%d" % t[0] for t in b["terms"]),
+                  "  lowerBoundary %r" % b["lo"], "  upperBoundary %r" % (b["lo"] + b["w"] * len(b["ref"])), "  width %r" % b["w"],
+                  "  gaussianSigma %r" % b["sigma"], "  refHistogram " + " ".join("%r" % x for x in b["ref"]),
+                  "  forceConstant %r" % b["k"], "}"]
+            continue
         if b["type"] == "abmd":
             L += ["abmd {", "  name b%d" % j, "  colvars v%d" % b["terms"][0][0], "  forceConstant %r" % b["k"],
                   "  stoppingValue %r" % b["stop"], "  decreasing %s" % ("on" if b["dec"] else "off"), "}"]
@@ -326,6 +332,19 @@ def model_line(case, res=None):
             t += ["meta", "1", hx(b["W"]), str(len(terms))]
             for (j, cj, sg) in terms:
                 t += [str(j), hx(cj), hx(sg)]
+            continue
+        if b["type"] == "hist":
+            vs = [j for (i, _) in b["terms"] for j in vmap[i]]
+            # colvarbias_restraint_histogram: init normalises the reference; update uses norm = 1/(sqrt(2 pi) sigma n)
+            ref = list(b["ref"])
+            integral = sum(ref) * b["w"]
+            if abs(integral - 1.0) > 1.0e-03:
+                ref = [x / integral for x in ref]
+            norm = 1.0 / (math.sqrt(2.0 * math.pi) * b["sigma"] * len(vs))
+            t += ["hist", hx(b["k"]), hx(norm), hx(b["sigma"]), str(len(ref))]
+            for ig, rg in enumerate(ref):
+                t += [hx(b["lo"] + (ig + 0.5) * b["w"]), hx(rg)]
+            t += [str(len(vs))] + [str(j) for j in vs]
             continue
         if b["type"] == "abmd":
             i = b["terms"][0][0]
@@ -791,6 +810,14 @@ def gen_case(r, kinds, opts):
                 terms.append((i, lo, up))
             b = {"type": "walls", "hl": hl, "hu": hu, "lwk": r.choice([1.0, 2.0, 4.0, 0.5]), "uwk": r.choice([1.0, 2.0, 4.0, 8.0]), "terms": terms}
         case["biases"].append(b)
+    if opts.get("histr") and r.random() < opts["histr"]:
+        vis = [i for i, v in enumerate(case["vars"]) if v.get("vec") in (None, False, "pairs") and not var_period(v)]
+        if vis:
+            vis = vis if r.random() < 0.5 else [r.choice(vis)]
+            case["biases"][r.randrange(len(case["biases"]))] = {
+                "type": "hist", "k": r.choice([1.0, 10.0, 4.0]), "lo": r.choice([0.0, -2.0]), "w": r.choice([2.0, 1.0]),
+                "sigma": r.choice([1.5, 1.0, 2.0]), "ref": [V.dyadic(r, 0, 0.25, bits=4) + 0.0625 for _ in range(6)],
+                "terms": [(i, None) for i in vis]}
     case["touched"] = touched_atoms(case)
     if opts.get("hist") and r.random() < opts["hist"]:
         # a history-dependent bias evaluated at a frozen state: one metadynamics hill / the ABMD reference, produced by
@@ -1311,7 +1338,7 @@ def check(run):
     model, exes = st
     vsim = exes["vsim"]
 
-    opts = {"dummy": True, "center": True, "poly": True, "cell": True, "nofitgrad": True, "vec": 0.12, "pairs": 0.08, "hist": 0.2, "biases": ["harmonic", "harmonic", "walls", "linear"]}
+    opts = {"dummy": True, "center": True, "poly": True, "cell": True, "nofitgrad": True, "vec": 0.12, "pairs": 0.08, "hist": 0.2, "histr": 0.1, "biases": ["harmonic", "harmonic", "walls", "linear"]}
     kinds = T1 + T1 + T2
     ncases = 500 if quick else 40000
     cases = load_corpus()
@@ -1322,7 +1349,7 @@ def check(run):
         c = gen_case(r, ["distance"], vplain)
         if c:
             cases.append(c)
-    pplain = dict(plain, pairs=1.0, cell=True, biases=["harmonic", "linear"])
+    pplain = dict(plain, pairs=1.0, cell=True, histr=0.4, biases=["harmonic", "linear"])
     for _ in range(8 if quick else 80):
         c = gen_case(r, ["distance"], pplain)
         if c:
